@@ -27,19 +27,23 @@ pub enum Expect {
     Reject(String),
     /// a well-formed IANA file: must decode, and agree with the reference decoder
     CorpusOk,
+    /// a generated file that is well-formed by the harness's independent judgement although the
+    /// library's constructor refuses the spec: must decode, and agree with the reference decoder
+    WellFormed,
     /// nothing known: if it decodes it must agree with the reference decoder
     Unknown,
 }
 
 impl Expect {
     pub fn wellformed(&self) -> bool {
-        matches!(self, Expect::Zone(_) | Expect::CorpusOk)
+        matches!(self, Expect::Zone(_) | Expect::CorpusOk | Expect::WellFormed)
     }
     pub fn tag(&self) -> &'static str {
         match self {
             Expect::Zone(_) => "zone",
             Expect::Reject(_) => "reject",
             Expect::CorpusOk => "corpus",
+            Expect::WellFormed => "wellformed",
             Expect::Unknown => "unknown",
         }
     }
@@ -183,9 +187,13 @@ pub fn resolve_contents(sc: &Scenario, corpus: &mut Corpus) -> Vec<RContent> {
             Content::Gen(z) => match z.bytes() {
                 None => RContent { bytes: Arc::new(Vec::new()), expect: Expect::Reject("unwritable".into()) },
                 Some(b) => {
-                    let expect = match z.expected() {
-                        Ok(tz) => Expect::Zone(Arc::new(tz)),
-                        Err(()) => Expect::Reject("spec_invalid".into()),
+                    // the library's own constructor gives the value to compare with; whether the spec is a
+                    // well-formed zone at all is judged independently where the small model takes a position
+                    let expect = match (crate::refmodel::independently_valid(z), z.expected()) {
+                        (Some(false), _) => Expect::Reject("spec_invalid".into()),
+                        (_, Ok(tz)) => Expect::Zone(Arc::new(tz)),
+                        (Some(true), Err(())) => Expect::WellFormed,
+                        (None, Err(())) => Expect::Reject("spec_invalid".into()),
                     };
                     RContent { bytes: Arc::new(b), expect }
                 }
